@@ -31,7 +31,7 @@ manifest = {
     # check has to build them inside its own time)
     'setup_cmd': 'cd lean && lake build USimModel driver ' + ' '.join('USimModel.Props.' + m for m in (
         'Machine', 'MachineTrace', 'MachineFifo', 'MachineSignals', 'MachineTasks', 'MachineObjects', 'MachineStructure',
-        'MachineLock', 'MachineQueue', 'MachineChannel', 'MachineCancel', 'MachineResources', 'MachineFailures', 'MachineAwait', 'MachineTicker', 'MachineYield')),
+        'MachineLock', 'MachineQueue', 'MachineChannel', 'MachineCancel', 'MachineResources', 'MachineFailures', 'MachineAwait', 'MachineTicker', 'MachineYield', 'MachineFifoRun')),
     'hooks': {
         'guard': 'USIM_VERIF',
         'enable': 'none needed: all observation is harness-side (no source hooks in /repo); the guard name is reserved and unused',
